@@ -4,6 +4,7 @@ set -e
 cd "$(dirname "$0")/.."
 export CARGO_NET_OFFLINE=true
 python3 tools/gen_os_image.py 2>/dev/null || true
+python3 tools/gen_uni_tables.py 2>/dev/null || true
 (cd lean && lake build)
 cp /repo/Cargo.lock harness/Cargo.lock
 (cd harness && cargo build --offline)
